@@ -337,6 +337,10 @@ pub enum Shape {
     Random { seed: u64, max: u8 },
     HalfZero { seed: u64, max: u8 },
     Explicit(Vec<u8>),
+    /// no zero register: values uniform in lo..=hi (lo >= 1)
+    NoZero { seed: u64, lo: u8, hi: u8 },
+    /// `permille` of the registers non-zero (values 1..=max), the rest zero
+    Sparse { seed: u64, permille: u16, max: u8 },
 }
 
 #[derive(Clone, Debug, Serialize, Deserialize)]
@@ -408,6 +412,15 @@ impl Check for Exact {
                         }
                         r
                     }
+                    Shape::NoZero { seed, lo, hi } => {
+                        let mut g = SplitMix64(*seed);
+                        let (lo, hi) = ((*lo).max(1), (*hi).max((*lo).max(1)));
+                        (0..m).map(|_| lo + g.below((hi - lo) as u64 + 1) as u8).collect()
+                    }
+                    Shape::Sparse { seed, permille, max } => {
+                        let mut g = SplitMix64(*seed);
+                        (0..m).map(|_| if g.below(1000) < *permille as u64 { 1 + g.below((*max).max(1) as u64) as u8 } else { 0 }).collect()
+                    }
                 };
                 let r = catch(|| {
                     let h: HyperLogLog<u64, GenBH> = HyperLogLog::with_registers_and_hash(*b, regs.clone(), GenBH(HKind::Ident));
@@ -418,7 +431,38 @@ impl Check for Exact {
                     (c1, g.count())
                 });
                 match r {
-                    Ok(_) => Verdict::Pass(Info::new(true, hash_json(c)).class("register_vector")),
+                    Ok((c1, _)) => {
+                        // reference: the estimator of the papers the documentation names (Flajolet et al. 2007; Heule et al.
+                        // 2013, figure 6) in the two regimes where no empirical table enters:
+                        //   no zero register and E = alpha_m m^2 / sum 2^-M[j] > 5m      ->  count = E
+                        //   V >= 0.62 m zero registers (linear counting <= 0.48 m, below every published threshold) -> count = m ln(m / V)
+                        let mf = m as f64;
+                        let v = regs.iter().filter(|&&x| x == 0).count();
+                        let sum: f64 = regs.iter().map(|&x| 2f64.powi(-(x as i32))).sum();
+                        let alpha = match m {
+                            16 => 0.673,
+                            32 => 0.697,
+                            64 => 0.709,
+                            _ => 0.7213 / (1.0 + 1.079 / mf),
+                        };
+                        let e = alpha * mf * mf / sum;
+                        let (regime, expect) = if v as f64 >= 0.62 * mf && v < m {
+                            ("linear_counting", Some(mf * (mf / v as f64).ln()))
+                        } else if v == 0 && e > 5.0 * mf * (1.0 + 1e-9) {
+                            ("raw_estimate", Some(e))
+                        } else {
+                            ("table_regime", None)
+                        };
+                        if let Some(x) = expect {
+                            if x < 1.8e19 && (c1 as f64 - x).abs() > 1.0 + 1e-9 * x {
+                                return fail(
+                                    format!("count!=reference:{}", regime),
+                                    format!("count() = {} but the published estimator gives {:.3} in the {} regime (b = {}, {} zero registers, registers {:?})", c1, x, regime, b, v, shape),
+                                );
+                            }
+                        }
+                        Verdict::Pass(Info::new(true, hash_json(c)).class("register_vector").class(regime))
+                    }
                     Err(p) => fail(format!("registers-{}", panic_sig(&p)), format!("count() on register contents {:?} (b = {}) panicked: {}", shape, b, p)),
                 }
             }
@@ -434,6 +478,8 @@ fn estrategy() -> BoxedStrategy<ECase> {
         3 => (any::<u64>(), prop_oneof![Just(3u8), Just(20), Just(61), Just(64), Just(255)]).prop_map(|(seed, max)| Shape::Random { seed, max }),
         2 => (any::<u64>(), prop_oneof![Just(3u8), Just(61), Just(255)]).prop_map(|(seed, max)| Shape::HalfZero { seed, max }),
         1 => prop::collection::vec(any::<u8>(), 0..40).prop_map(Shape::Explicit),
+        4 => (any::<u64>(), prop_oneof![Just(1u8), Just(2), Just(3), Just(5), Just(10), Just(40), Just(46), Just(60)], 0u8..=25).prop_map(|(seed, lo, d)| Shape::NoZero { seed, lo, hi: lo + d }),
+        3 => (any::<u64>(), 0u16..=380, prop_oneof![Just(1u8), Just(3), Just(20), Just(61), Just(255)]).prop_map(|(seed, permille, max)| Shape::Sparse { seed, permille, max }),
     ];
     prop_oneof![
         1 => (4usize..=18).prop_map(|b| ECase::Empty { b }),
@@ -454,7 +500,7 @@ pub fn checks() -> Vec<Box<dyn DynCheck>> {
 }
 
 pub fn run(ctx: &Ctx) {
-    ctx.set_rule("cells (b, n, source): all 15 precisions; n on a grid of 71 (quick, step 0.1 m up to 6 m) / ~140 (thorough, step 0.05 m) cardinalities from 0.05 m to 50 m, dense around the estimator switch-overs; sources: independent random 64-bit hashes via add_hashed (all b), add(&i) of sequential integers (b <= 14) and add(\"key-i\") of strings (b <= 12, n <= 8m) under seeded SipHash. One trajectory per seed serves all checkpoints of its b; seeds per cell 40000 (b <= 7), 4000 (b 8..10), 1600 (11..14), 400 (15..18) for random hashes, a quarter of that for the real-hasher sources, x15 in thorough. Per cell, errors (reduced by 2 units for integer effects) normalised by n*relative_error(): RMS <= 1.25 (2.2 for 0.5m <= n <= 2m), |mean| <= 0.75 (<= 0.1 in the raw-estimate regime n >= 6m, where no empirical table enters), fraction beyond 3 <= 5 %, each at z = 6, flagged cells re-measured with 4x fresh seeds. exact: empty sketch counts 0; up to 8 adds with b >= 9 counted to within 1 of the distinct registers hit; count() returns for generated register vectors (all equal, one hot, random, half zero, explicit, values up to 255). Non-trivial: every measured cell with n >= 1 (distinct = (b, n, source)); exact cases with distinct registers or a register vector. evaluations = trajectories + cells + exact cases.");
+    ctx.set_rule("cells (b, n, source): all 15 precisions; n on a grid of 71 (quick, step 0.1 m up to 6 m) / ~140 (thorough, step 0.05 m) cardinalities from 0.05 m to 50 m, dense around the estimator switch-overs; sources: independent random 64-bit hashes via add_hashed (all b), add(&i) of sequential integers (b <= 14) and add(\"key-i\") of strings (b <= 12, n <= 8m) under seeded SipHash. One trajectory per seed serves all checkpoints of its b; seeds per cell 40000 (b <= 7), 4000 (b 8..10), 1600 (11..14), 400 (15..18) for random hashes, a quarter of that for the real-hasher sources, x15 in thorough. Per cell, errors (reduced by 2 units for integer effects) normalised by n*relative_error(): RMS <= 1.25 (2.2 for 0.5m <= n <= 2m), |mean| <= 0.75 (<= 0.1 in the raw-estimate regime n >= 6m, where no empirical table enters), fraction beyond 3 <= 5 %, each at z = 6, flagged cells re-measured with 4x fresh seeds. exact: empty sketch counts 0; up to 8 adds with b >= 9 counted to within 1 of the distinct registers hit; count() returns for generated register vectors (all equal, one hot, random, half zero, explicit, no-zero, sparse; values up to 255) and equals the published estimator where no empirical table enters: alpha_m m^2 / sum 2^-M[j] when no register is zero and that exceeds 5m, m ln(m/V) when V >= 0.62 m registers are zero (to within 1 + 1e-9 relative). Non-trivial: every measured cell with n >= 1 (distinct = (b, n, source)); exact cases with distinct registers or a register vector. evaluations = trajectories + cells + exact cases.");
     ctx.assume("bounds: 'about relative_error()' = 1.25x, 'about twice' = 2.2x, 'close to zero' = 0.75x (0.1x for n >= 6m), 'a few percent' = 5 %; integer effects of 2 units are subtracted from every error");
     ctx.run_regressions(&[&Cells, &Exact]);
     run_cells(ctx);
